@@ -256,6 +256,7 @@ type exec struct {
 	mstMain types.MultiSignMainInfo
 	mstSigs []types.ValidatorSign
 	hasMst  bool
+	fsLines []string // description lines of the fast-sync case under construction (fsyncops.go)
 }
 
 func (P) NewExec() hx.Executor {
@@ -389,6 +390,9 @@ func (e *exec) commit() *types.Commit {
 
 func (e *exec) Exec(op string) string {
 	toks := hx.Tokens(op)
+	if ans, ok := e.fsOp(toks, op); ok {
+		return ans
+	}
 	switch toks[0] {
 	case "evvote", "dupev":
 		return e.dupevOp(toks)
